@@ -9,7 +9,7 @@ From BV Require Import Base.Prelude gen.ExpandGen Expand.Model Expand.SplitSpec 
 
 (** For every environment whose IFS consists of blanks, tabs and newlines (or is unset or empty),
     every oracle, every brace-free word of the fragment (text, '..', $'..', "..", tilde, $v ${v} $N
-    ${a[i]} $# $@ $* ${a[@]} ${a[*]}, $(..), $((..)), \c; no ${p:-w} forms) whose literal text has no
+    ${a[i]} $# $@ $* ${a[@]} ${a[*]}, ${#p}, $(..), $((..)), \c; no ${p:-w} forms) whose literal text has no
     IFS character (true of every tokenised word), outside the recorded class [known_at_null] and with
     "$*" joined as in bash: the model's fields — split at the same places, empty fields kept or
     dropped alike, every character with the same quoted/unquoted tag — are the specification's. *)
